@@ -533,7 +533,9 @@ class Stage:
         """
         if self.master is not None and self.master.is_transcribed:
             def action(parameter, value):
-                self._method.set_value(self, self.master._method, parameter, value)      
+                self._method.set_value(self, self.master._method, parameter, value)
+                # Remember the value for later (re-)transcriptions as well
+                self._param_vals[parameter] = value
         else:
             def action(parameter, value):
                 if parameter not in self._meta:
